@@ -10,7 +10,7 @@ from ..cfg import own_exprs
 from ..facts import FactFlow, Fact, atoms, enumerate_paths
 from ..report import Ctx
 from .common import (
-    always_before, decision_table, expand, guard, holds_with_callers, local_aliases, need, node_of, stmts_matching, xpath,
+    always_before, decision_table, expand, increment_of, guard, holds_with_callers, local_aliases, need, node_of, stmts_matching, xpath,
 )
 
 SIM = "happysimulator/core/simulation.py"
@@ -227,13 +227,10 @@ def _pairing(ctx: Ctx, fn, mut_call: ast.Call, ev_path: str, sign: str, what: st
         incs = 0
         for n in p.nodes:
             a = n.ast
-            if n.kind == "stmt" and isinstance(a, ast.AugAssign) and path_of(a.target) == "self._primary_event_count":
-                if isinstance(a.op, op) and isinstance(a.value, ast.Constant) and a.value.value == 1:
-                    incs += 1
-                else:
-                    incs += 99
-            elif n.kind == "stmt" and isinstance(a, ast.Assign) and any(path_of(t) == "self._primary_event_count" for t in a.targets):
-                incs += 99
+            if n.kind == "stmt":
+                k = increment_of(a, "self._primary_event_count")
+                if k is not None:
+                    incs += 1 if k == (1 if sign == "+" else -1) else 99
         daemon_t = p.has_fact(("truthy", f"{ev_path}.daemon", ""))
         daemon_f = p.has_fact(("falsy", f"{ev_path}.daemon", ""))
         want = 0 if daemon_t else (1 if daemon_f else None)
@@ -450,18 +447,29 @@ def _rule_trichotomy(ctx: Ctx, L: LoopInfo) -> None:
         if p.end == "raise":
             continue
         inv = sum(1 for n in p.nodes if n is L.invoke_node)
-        canc_inc = sum(1 for n in p.nodes if n.kind == "stmt" and isinstance(n.ast, ast.AugAssign)
-                       and path_of(n.ast.target) == L.cancel_carrier and isinstance(n.ast.op, ast.Add))
-        proc_inc = sum(1 for n in p.nodes if n.kind == "stmt" and isinstance(n.ast, ast.AugAssign)
-                       and path_of(n.ast.target) == L.processed_carrier and isinstance(n.ast.op, ast.Add))
+        def steps(carrier: str) -> int:
+            tot = 0
+            for n in p.nodes:
+                if n.kind == "stmt":
+                    k = increment_of(n.ast, carrier)
+                    if k == "other":
+                        tot += 99
+                    elif k is not None:
+                        tot += k
+            return tot
+
+        canc_inc = steps(L.cancel_carrier)
+        proc_inc = steps(L.processed_carrier)
         # processed counter may be incremented inside the time-advance helper
         for n in p.nodes:
             if n.kind == "stmt":
                 for c in calls_in(n.ast):
                     r = _callee_writes_time(ctx, fn, c)
                     if r is not None:
-                        proc_inc += sum(1 for st in walk_stmts(r[0].node.body) if isinstance(st, ast.AugAssign)
-                                        and path_of(st.target) == "self._events_processed" and isinstance(st.op, ast.Add))
+                        for st in walk_stmts(r[0].node.body):
+                            k = increment_of(st, "self._events_processed")
+                            if k is not None:
+                                proc_inc += 99 if k == "other" else k
         cancelled = p.has_fact(("truthy", f"{ev}.cancelled", "")) or p.has_fact(("truthy", f"{ev}._cancelled", ""))
         # "past" = a test comparing the event's time below the carrier took its true edge
         past = False
@@ -748,3 +756,58 @@ def run(ctx: Ctx) -> None:
     rule_loops(ctx)
     rule_autoterminate(ctx)
     rule_sort_index(ctx)
+
+
+# ------------------------------------------------------------------------------------------------
+# self-test tables (thorough tier): single edits that break the property / preserve behaviour
+# ------------------------------------------------------------------------------------------------
+_LE_INSTANT = ("    def __le__(self, other: Instant) -> bool:\n        if not isinstance(other, Instant):\n            return NotImplemented\n"
+               "        return self.nanoseconds <= other.nanoseconds")
+MUTANTS = [
+    ("lt-index-flipped", EV, "return self._sort_index < other._sort_index", "return self._sort_index > other._sort_index", "C01-1"),
+    ("lt-time-only", EV, "        if self.time != other.time:\n            return self.time < other.time\n        return self._sort_index < other._sort_index",
+     "        return self.time < other.time", "C01-1"),
+    ("instant-le-strict", TEMP, _LE_INSTANT, _LE_INSTANT.replace("<=", "<"), "C01-2"),
+    ("infinity-ge-finite", TEMP, "            return NotImplemented\n        return True\n", "            return NotImplemented\n        return isinstance(other, _InfiniteInstant)\n", "C01-2"),
+    ("push-counts-daemons", HEAP, "        if not event.daemon:\n            self._primary_event_count += 1", "        self._primary_event_count += 1", "C01-3"),
+    ("pop-counts-daemons", HEAP, "        if not popped.daemon:\n            self._primary_event_count -= 1", "        self._primary_event_count -= 1", "C01-3"),
+    ("pop-forgets-count", HEAP, "        if not popped.daemon:\n            self._primary_event_count -= 1", "        pass", "C01-3"),
+    ("has-primary-ge0", HEAP, "return self._primary_event_count > 0", "return self._primary_event_count >= 0", "C01-3"),
+    ("fast-cancelled-falls-through", SIM, "            if event._cancelled:\n                events_cancelled += 1\n                continue\n",
+     "            if event._cancelled:\n                events_cancelled += 1\n", "C01-4"),
+    ("slow-cancelled-not-counted", SIM, "            if event.cancelled:\n                self._events_cancelled += 1\n                continue\n",
+     "            if event.cancelled:\n                continue\n", "C01-5"),
+    ("slow-past-check-inverted", SIM, "            if event.time < self._current_time:\n", "            if event.time > self._current_time:\n", "C01-4"),
+    ("fast-past-check-dropped", SIM, "            if event_time < current_time:\n", "            if False and event_time < current_time:\n", "C01-4"),
+    ("fast-clock-not-updated", SIM, "            clock_update(current_time)\n", "", "C01-4"),
+    ("slow-clock-not-updated", SIM, "        self._clock.update(self._current_time)\n", "", "C01-4"),
+    ("fast-clock-updated-before-time", SIM, "            current_time = event_time\n            clock_update(current_time)\n",
+     "            clock_update(current_time)\n            current_time = event_time\n", "C01-4"),
+    ("fast-results-dropped", SIM, "                if new_events:\n                    heap_push(new_events)", "                if new_events:\n                    pass", "C01-5"),
+    ("fast-results-pushed-twice", SIM, "                if new_events:\n                    heap_push(new_events)",
+     "                if new_events:\n                    heap_push(new_events)\n                    heap_push(new_events)", "C01-5"),
+    ("slow-results-condition-inverted", SIM, "            if new_events:\n                self._push_new_events(event, new_events)",
+     "            if not new_events:\n                self._push_new_events(event, new_events)", "C01-5"),
+    ("push-helper-only-when-tracing", SIM, "        self._event_heap.push(new_events)\n\n    def _pause_simulation",
+     "        if self._tracing_enabled:\n            self._event_heap.push(new_events)\n\n    def _pause_simulation", "C01-5"),
+    ("autoterm-tests-any-event", SIM, "if auto_terminate and not heap.has_primary_events():", "if auto_terminate and not heap.has_events():", "C01-6"),
+    ("autoterm-never", SIM, "auto_terminate = end_time == Instant.Infinity", "auto_terminate = False", "C01-6"),
+    ("fast-path-in-auto-mode", SIM, "            and not auto_terminate\n", "", "C01-6"),
+    ("continuation-index-constant", EV, "        self.on_complete = on_complete if on_complete is not None else []\n        self._sort_index = _next_sort_index()\n        self._id = self._sort_index\n        self._cancelled = False\n        self.context = context if context is not None else {}",
+     "        self.on_complete = on_complete if on_complete is not None else []\n        self._sort_index = 0\n        self._id = self._sort_index\n        self._cancelled = False\n        self.context = context if context is not None else {}", "C01-9"),
+    ("tiebreak-fix-reverted-install", FUT, "        heap_counter = heap._continue_event_counter()\n", "", "C01-8"),
+    ("tiebreak-rebase-ignores-floor", HEAP, "count(max(self._event_counter.__next__(), self._index_floor))", "count(self._event_counter.__next__())", "C01-8"),
+    ("tiebreak-floor-not-maintained", HEAP, "        heapq.heappush(self._heap, event)\n        if event._sort_index >= self._index_floor:\n            self._index_floor = event._sort_index + 1\n",
+     "        heapq.heappush(self._heap, event)\n", "C01-8"),
+    ("foreign-heap-write", "happysimulator/core/control/control.py", "    def peek_next(", "    def _drop_next(self):\n        self._sim._event_heap._heap.pop(0)\n\n    def peek_next(", "C01-3"),
+]
+REFACTORS = [
+    ("fast-loop-no-event-time-alias", SIM, ["            event_time = event.time\n            if event_time < current_time:", "                    event_time,\n", "            current_time = event_time\n"],
+     ["            if event.time < current_time:", "                    event.time,\n", "            current_time = event.time\n"]),
+    ("slow-loop-explicit-increment", SIM, "                self._events_cancelled += 1\n", "                self._events_cancelled = self._events_cancelled + 1\n"),
+    ("lt-as-tuple-compare", EV, "        if self.time != other.time:\n            return self.time < other.time\n        return self._sort_index < other._sort_index",
+     "        if self.time == other.time:\n            return self._sort_index < other._sort_index\n        return self.time < other.time"),
+    ("has-primary-ne0", HEAP, "return self._primary_event_count > 0", "return self._primary_event_count >= 1"),
+    ("slow-cancel-via-private-flag", SIM, "            if event.cancelled:\n", "            if event._cancelled:\n"),
+    ("push-guard-nested-else", HEAP, "        if not event.daemon:\n            self._primary_event_count += 1", "        if event.daemon:\n            pass\n        else:\n            self._primary_event_count += 1"),
+]
